@@ -20,7 +20,7 @@ CONFIG = dict(
           "unidentifiable ones and pairs with no polyglot) in a fresh working directory, with the default output name and "
           "with a bare name, a name in a sub-directory, a ./ name and an absolute name outside the working directory: "
           "inputs' sha256, the recursive listing of the working and output directories after return or raise, and "
-          "identification of the product; (c) crash points: for "
+          "identification of the product; every product is fed back as an input (either position) with each real file; (c) crash points: for "
           "every file-system audit event of each clean create_polyglot run, the run is repeated with an "
           "OSError injected at that event (fault enumeration) and the same after-state is required.  A case "
           "is one distinct (file bytes) or (pair, failpoint); non-trivial = a zip with at least one marker, "
@@ -163,7 +163,7 @@ def _tree(root):
     return sorted(out)
 
 
-def polyglot_case(ctx, mods, files, a, b, failpoint_k=None, clean_events=None, outname=None):
+def polyglot_case(ctx, mods, files, a, b, failpoint_k=None, clean_events=None, outname=None, keep=None):
     """One create_polyglot run in a fresh working directory.  Returns list of fs events (clean run)."""
     torch, polyglot = mods
     agg = ctx.agg
@@ -253,6 +253,11 @@ def polyglot_case(ctx, mods, files, a, b, failpoint_k=None, clean_events=None, o
             need = [fa[0], fb[0]] if fa and fb else []
             if any(x not in fp_ for x in need):
                 agg.violation("polyglot-product-format", f"product identified as {fp_}, expected to include {need}", w)
+            elif keep is not None and outname is None:
+                # keep the product: the tool's own output is a legitimate input of the next construction
+                dst = os.path.join(ctx.scratch, "real", f"poly_{a}_{b}" + os.path.splitext(prod[0])[1])
+                shutil.copy(os.path.join(wd, prod[0]), dst)
+                keep[f"poly:{a}+{b}"] = dst
     events, root = [], None
     for n, s in rec.events:
         if n == "shutil.rmtree":
@@ -336,12 +341,13 @@ def run_shard(ctx):
                 ctx.agg.hist("real_file_formats", f"{name}: {r}")
     # (b) + (c) polyglots
     names = sorted(files)
+    products = {}
     pairs = [(a, b) for a in names for b in names]
     for a, b in pairs:
         i += 1
         if i % ctx.nshards != ctx.shard:
             continue
-        events = polyglot_case(ctx, mods, files, a, b)
+        events = polyglot_case(ctx, mods, files, a, b, keep=products)
         if events is None:
             continue
         for outname in ("bare", "subdir", "dot", "absolute"):
@@ -352,6 +358,23 @@ def run_shard(ctx):
             continue
         for k in range(len(events)):
             polyglot_case(ctx, mods, files, a, b, failpoint_k=k)
+    second_generation(ctx, mods, files, products)
+
+
+def second_generation(ctx, mods, files, products):
+    """Compositions: a polyglot the tool wrote is fed back as an input (either position) together with each real file."""
+    files2 = dict(files)
+    files2.update(products)
+    n = 0
+    for pname in sorted(products):
+        for other in sorted(files):
+            for a, b in ((other, pname), (pname, other)):
+                polyglot_case(ctx, mods, files2, a, b)
+                n += 1
+    ctx.agg.count("second_generation_runs", n)
+    for pth in products.values():
+        if os.path.exists(pth):
+            os.remove(pth)
 
 
 def replay(ctx, payload):
